@@ -76,6 +76,7 @@ type c18SrvObs struct {
 	writeErr      error
 	gz            bool
 	done          bool
+	early         int // status of the early answer the handler gave without reading the body (0: none)
 }
 
 type c18CliObs struct {
@@ -105,6 +106,50 @@ type c18Exec struct {
 	aborted []chan struct{}
 	startMu sync.Mutex
 	startOk []bool
+	// early-rejection histories: rej[idx] = 1 + c18Rej.Kind for the rejected uploads, 0 otherwise
+	rej   []int
+	conns int // connections the Transport dialled
+}
+
+func (x *c18Exec) rejKind(idx int) int {
+	if idx < len(x.rej) {
+		return x.rej[idx] - 1
+	}
+	return -1
+}
+
+func (x *c18Exec) reqSize(idx int) int {
+	if x.rejKind(idx) >= 0 {
+		return x.c.Rej.Body
+	}
+	return x.msgs[idx].reqSize()
+}
+
+// reqHeader is the header multiset request idx carries.
+func (x *c18Exec) reqHeader(idx int) http.Header {
+	h := c18ReqHeader(x.msgs[idx], idx)
+	switch x.rejKind(idx) {
+	case 0:
+		for j := 0; j < 100; j++ {
+			h[fmt.Sprintf("X-H-%d", j)] = []string{"v"}
+		}
+	case 1:
+		h["X-Big"] = []string{c18Big(fmt.Sprintf("j%d", idx))}
+	}
+	return h
+}
+
+func c18EarlyBody(idx int) []byte { return []byte(fmt.Sprintf("rejected-early-%d", idx)) }
+
+// c18RejConfig is the server's quic.Config of an early-rejection history.
+func c18RejConfig(r *c18Rej) *quic.Config {
+	switch r.Cfg {
+	case 1:
+		return &quic.Config{InitialStreamReceiveWindow: 16384, MaxStreamReceiveWindow: 16384, InitialConnectionReceiveWindow: 24576, MaxConnectionReceiveWindow: 24576}
+	case 2:
+		return &quic.Config{MaxIncomingStreams: int64(r.N)}
+	}
+	return &quic.Config{}
 }
 
 func (x *c18Exec) fail(key, format string, a ...any) {
@@ -246,6 +291,30 @@ func (x *c18Exec) ServeHTTP(w http.ResponseWriter, r *http.Request) {
 	o.header = cloneHeader(r.Header)
 	o.contentLength = r.ContentLength
 	o.declaredCL = c18HeaderCL(r.Header)
+	if k := x.rejKind(idx); k == 2 || k == 3 {
+		// the handler rejects the upload early: it answers without reading the body (k == 2) or
+		// after its first byte (k == 3) and returns while the client is still sending
+		status := http.StatusBadRequest
+		if k == 3 {
+			status = http.StatusRequestEntityTooLarge
+			one := make([]byte, 1)
+			n, err := r.Body.Read(one)
+			o.body = one[:n]
+			if err != nil && err != io.EOF {
+				o.bodyErr = err
+			}
+		}
+		w.Header().Set("X-Early", strconv.Itoa(idx))
+		w.WriteHeader(status)
+		payload := c18EarlyBody(idx)
+		n, err := w.Write(payload)
+		o.written, o.writeErr = payload[:n], err
+		x.mu.Lock()
+		o.early = status
+		o.done = true
+		x.mu.Unlock()
+		return
+	}
 	if m.Abort == 1 {
 		x.signalStarted(idx)
 	}
@@ -390,14 +459,14 @@ func (x *c18Exec) request(parent context.Context, client *http.Client, idx int, 
 		return nil
 	}}
 	ctx = httptrace.WithClientTrace(ctx, trace)
-	data := c18Data(c18ReqSeed(idx), m.reqSize())
+	data := c18Data(c18ReqSeed(idx), x.reqSize(idx))
 	chunks := c18Chunks(data, m.ReqChunk)
 	if m.Abort == 1 && len(chunks) == 1 {
 		chunks = c18Chunks(data, 1)
 	}
 	var body io.Reader
 	var rb *c18Body
-	if !(m.reqSize() == 0 && m.ReqCL == 1) {
+	if !(x.reqSize(idx) == 0 && m.ReqCL == 1) {
 		cp := make([][]byte, len(chunks))
 		copy(cp, chunks)
 		rb = &c18Body{chunks: cp, blockAt: -1, gate: ctx.Done(), closed: make(chan struct{})}
@@ -411,10 +480,10 @@ func (x *c18Exec) request(parent context.Context, client *http.Client, idx int, 
 		x.fail("harness-newrequest", "%v", err)
 		return
 	}
-	if cl := c18DeclaredCL(m.ReqCL, m.reqSize()); cl >= 0 {
+	if cl := c18DeclaredCL(m.ReqCL, x.reqSize(idx)); cl >= 0 {
 		req.ContentLength = cl
 	}
-	for k, v := range c18ReqHeader(m, idx) {
+	for k, v := range x.reqHeader(idx) {
 		req.Header[k] = v
 	}
 	req.Header.Set("X-Idx", strconv.Itoa(idx))
@@ -500,8 +569,24 @@ func c18RunOne(t *testing.T, c c18Case) c18Outcome {
 	if followUp {
 		total++
 	}
+	if c.Rej != nil {
+		// N early-rejected uploads, then the n request(s) of the valid message
+		explore.Must(m.Abort == 0 && len(c.Faults) == 0, "early-rejection histories take a message without aborts and no faults")
+		total = c.Rej.N + n
+	}
 	x := &c18Exec{c: c, msgs: make([]c18Msg, total), srv: make([]c18SrvObs, total), cli: make([]c18CliObs, total), startOk: make([]bool, total)}
-	for i := 0; i < n; i++ {
+	if c.Rej != nil {
+		x.rej = make([]int, total)
+		for i := 0; i < total; i++ {
+			if i < c.Rej.N {
+				x.rej[i] = 1 + c.Rej.Kind
+				x.msgs[i] = c18Msg{Gzip: m.Gzip, SLog: m.SLog, CLog: m.CLog, Kind: m.Kind}
+			} else {
+				x.msgs[i] = m
+			}
+		}
+	}
+	for i := 0; i < n && c.Rej == nil; i++ {
 		x.msgs[i] = m
 		if i > 0 {
 			x.msgs[i].Abort = 0 // only request 0 is aborted
@@ -522,12 +607,19 @@ func c18RunOne(t *testing.T, c c18Case) c18Outcome {
 			x.aborted = append(x.aborted, make(chan struct{}))
 		}
 		w := sim.NewWorld(c.Faults)
-		ln, err := w.Listen(w.ServerTLS(false), &quic.Config{})
+		qconf := &quic.Config{}
+		if c.Rej != nil {
+			qconf = c18RejConfig(c.Rej)
+		}
+		ln, err := w.Listen(w.ServerTLS(false), qconf)
 		if err != nil {
 			t.Fatal(err)
 		}
 		ctx, cancelAll := context.WithCancel(context.Background())
 		srv := &Server{Handler: x, Logger: c18Logger(m.SLog)}
+		if c.Rej != nil {
+			srv.MaxHeaderBytes = c18RejMaxHeaderBytes
+		}
 		var swg sync.WaitGroup
 		var connMu sync.Mutex
 		var sconns, cconns []*quic.Conn
@@ -573,6 +665,7 @@ func c18RunOne(t *testing.T, c c18Case) c18Outcome {
 					// the Transport forgets (without closing) a connection on which a request failed
 					connMu.Lock()
 					cconns = append(cconns, conn)
+					x.conns++
 					connMu.Unlock()
 				}
 				return conn, err
@@ -582,7 +675,27 @@ func c18RunOne(t *testing.T, c c18Case) c18Outcome {
 		var abortOnce sync.Once
 		abort := func() { abortOnce.Do(func() { tr.Close() }) }
 		var cwg sync.WaitGroup
-		for i := 0; i < n; i++ {
+		first := 0
+		if c.Rej != nil {
+			// the rejected uploads: one after the other, or all at once; the valid message afterwards
+			first = c.Rej.N
+			for i := 0; i < first; i++ {
+				if c.Rej.Par == 0 {
+					x.request(ctx, client, i, abort)
+					continue
+				}
+				cwg.Add(1)
+				go func() {
+					defer cwg.Done()
+					x.request(ctx, client, i, abort)
+				}()
+			}
+			cwg.Wait()
+			if c.Rej.Wait == 1 {
+				time.Sleep(3 * time.Second) // virtual
+			}
+		}
+		for i := first; i < first+n; i++ {
 			cwg.Add(1)
 			go func() {
 				defer cwg.Done()
@@ -719,6 +832,15 @@ func (x *c18Exec) class() string {
 	m := x.c.Msg
 	fmt.Fprintf(&sb, "%s k%d n%d ab%d", m.method(), m.Kind, m.requests(), m.Abort)
 	so, co := x.srv[0], x.cli[0]
+	if r := x.c.Rej; r != nil {
+		// the rejected uploads (what the client was told), then the valid exchange
+		fmt.Fprintf(&sb, " rej[%s n%d b%s cfg%d par%d w%d conns=%d:", c18RejKinds[r.Kind], r.N, c18Bucket(r.Body), r.Cfg, r.Par, r.Wait, x.conns)
+		for i := 0; i < r.N; i++ {
+			fmt.Fprintf(&sb, " %d/%s/%s", x.cli[i].status, c18ErrClass(x.cli[i].err), c18ErrClass(x.cli[i].bodyErr))
+		}
+		sb.WriteString("]")
+		so, co = x.srv[r.N], x.cli[r.N]
+	}
 	fmt.Fprintf(&sb, " srv[calls=%d body=%s/%s tr=%d w=%s/%s]", so.calls, c18Bucket(len(so.body)), c18ErrClass(so.bodyErr), len(so.trailer), c18Bucket(len(so.written)), c18ErrClass(so.writeErr))
 	fmt.Fprintf(&sb, " cli[%s st=%d 1xx=%d body=%s/%s tr=%d]", c18ErrClass(co.err), co.status, len(co.info), c18Bucket(len(co.body)), c18ErrClass(co.bodyErr), len(co.trailer))
 	if len(x.fails) > 0 {
@@ -739,9 +861,19 @@ func (x *c18Exec) judge() {
 			continue
 		}
 		isFollowUp := idx >= x.c.Msg.requests()
+		rejected := x.rejKind(idx) >= 0
+		if x.c.Rej != nil {
+			isFollowUp = !rejected
+		}
 		tag := fmt.Sprintf("request %d of [%v]", idx, x.c)
-		reqData := c18Data(c18ReqSeed(idx), m.reqSize())
+		reqData := c18Data(c18ReqSeed(idx), x.reqSize(idx))
 		respPlain := c18Data(c18RespSeed(idx), m.respSize())
+		if rejected && (so.calls == 0 || so.early != 0) {
+			// an early answer. The statement is silent about the server's own 431 (status and
+			// delivery are outcomes, not verdicts); what the HANDLER saw and wrote must be exact.
+			x.judgeEarly(idx, tag, reqData)
+			continue
+		}
 
 		// ---- receiver-side Content-Length agreement (always)
 		if so.calls > 0 && so.bodyDone && so.declaredCL >= 0 {
@@ -785,10 +917,10 @@ func (x *c18Exec) judge() {
 					x.fail("request-line-altered:url", "%s: handler saw path %q query %q RequestURI %q, sent %q", tag, so.path, so.query, so.reqURI, c18Paths[m.Path])
 				}
 			}
-			if d := c18HeaderDiff("request header", c18ReqHeader(m, idx), so.header, c18IgnoreReqHdr, true); d != "" {
+			if d := c18HeaderDiff("request header", x.reqHeader(idx), so.header, c18IgnoreReqHdr, true); d != "" {
 				x.fail("request-header-altered", "%s: %s", tag, d)
 			}
-			if cl := c18DeclaredCL(m.ReqCL, m.reqSize()); cl > 0 && so.contentLength != cl {
+			if cl := c18DeclaredCL(m.ReqCL, x.reqSize(idx)); cl > 0 && so.contentLength != cl {
 				x.fail("request-header-altered:content-length", "%s: handler saw ContentLength %d, client declared %d", tag, so.contentLength, cl)
 			}
 		}
@@ -828,12 +960,16 @@ func (x *c18Exec) judge() {
 		}
 
 		// ---- completeness of clean exchanges
-		if !m.clean() && !isFollowUp {
+		if (!m.clean() && !isFollowUp) || rejected {
 			continue
 		}
 		keyPfx := ""
 		if isFollowUp {
 			keyPfx = "followup-after-abort:"
+			if x.c.Rej != nil {
+				// the class of the history that preceded the exchange on this connection
+				keyPfx = fmt.Sprintf("after-early-reject:%s:%s:", c18RejKinds[x.c.Rej.Kind], c18RejCfgs[x.c.Rej.Cfg])
+			}
 		}
 		if so.calls == 0 {
 			x.fail(keyPfx+"exchange-incomplete:handler-not-called", "%s: the handler was never called (client error: %v)", tag, co.err)
@@ -870,5 +1006,38 @@ func (x *c18Exec) judge() {
 				x.fail(keyPfx+"response-trailer-altered", "%s: %s", tag, d)
 			}
 		}
+	}
+}
+
+// judgeEarly: a rejected upload that was answered early (by the server itself: handler never
+// called; or by the handler, before it read the body).
+func (x *c18Exec) judgeEarly(idx int, tag string, reqData []byte) {
+	m := x.msgs[idx]
+	so, co := &x.srv[idx], &x.cli[idx]
+	if so.calls > 0 {
+		if !bytes.HasPrefix(reqData, so.body) {
+			x.fail("request-body-altered", "%s: the %d bytes the handler read are not a prefix of the %d bytes the client sent", tag, len(so.body), len(reqData))
+		}
+		if so.method != m.method() || so.host != "server.verif" || so.reqURI != c18Paths[m.Path] {
+			x.fail("request-line-altered:early", "%s: handler saw %q %q %q", tag, so.method, so.host, so.reqURI)
+		}
+		if d := c18HeaderDiff("request header", x.reqHeader(idx), so.header, c18IgnoreReqHdr, true); d != "" {
+			x.fail("request-header-altered", "%s: %s", tag, d)
+		}
+	}
+	if co.err != nil || so.early == 0 {
+		return
+	}
+	// the response the client was given is the one the handler wrote
+	if co.status != so.early {
+		x.fail("status-altered:early", "%s: client saw status %d, handler wrote %d", tag, co.status, so.early)
+	}
+	if d := c18HeaderDiff("response header", http.Header{"X-Early": {strconv.Itoa(idx)}}, co.header, c18IgnoreRespHdr, false); d != "" {
+		x.fail("response-header-altered:early", "%s: %s", tag, d)
+	}
+	if !bytes.HasPrefix(so.written, co.body) {
+		x.fail("response-body-altered:early", "%s: the client read %q, the handler wrote %q", tag, co.body, so.written)
+	} else if co.bodyDone && co.bodyErr == nil && so.writeErr == nil && len(co.body) != len(so.written) {
+		x.fail("response-body-truncated:early", "%s: client read %d bytes and io.EOF, handler wrote %d", tag, len(co.body), len(so.written))
 	}
 }
